@@ -50,7 +50,34 @@ if "optimal_rotation_to_ref_coords" in label or "align_to_ref_coords" in label:
         if bad:
             break
 elif "rotate_dihedral" in label or "dihedral" in label:
-    for t in range(20):
+    # a bond whose near side (atoms[1] side) is the lighter one, and one whose far side is
+    for quad in ((0, 1, 2, 3), (4, 3, 2, 1)):
+        for t in range(6):
+            m = chain()
+            m.add_atom(ml.Atom("H", label="H5"), rng.normal(size=3) + [5.6, 1, 0], 0.0)
+            m.add_atom(ml.Atom("H", label="H6"), rng.normal(size=3) + [5.6, -1, 0], 0.0)
+            m.connect(4, 5)
+            m.connect(4, 6)
+            before = m.coords.copy()
+            target = rng.uniform(-3, 3)
+            m.rotate_dihedral(quad, target)
+            new = m.dihedral(*quad)
+            near = [i for i in range(7) if (i <= quad[1]) == (quad[1] < quad[2])]
+            if abs(wrap(new - target)) > 1e-6:
+                bad.append(f"rotate_dihedral{quad}(target={target:.4f}) left the dihedral at {new:.4f}")
+                break
+            if not np.allclose(m.coords[near], before[near]):
+                bad.append(f"rotate_dihedral{quad}: atoms on the atoms[1] side moved")
+                break
+            D0 = np.linalg.norm(before[:, None] - before[None], axis=-1)
+            D1 = np.linalg.norm(m.coords[:, None] - m.coords[None], axis=-1)
+            bonded = [(i, i + 1) for i in range(4)] + [(4, 5), (4, 6)]
+            if any(abs(D0[i, j] - D1[i, j]) > 1e-6 for i, j in bonded):
+                bad.append(f"rotate_dihedral{quad} changed a bond length")
+                break
+        if bad:
+            break
+    for t in range(0 if bad else 20):
         m = chain()
         before = m.coords.copy()
         target = rng.uniform(-3, 3)
